@@ -37,6 +37,9 @@ func RunModel(src string, stdin string, repl bool, maxSteps int) *ModelOut {
 		return m
 	}
 	in := &ref.Interp{Stdin: splitStdin(stdin), Repl: repl, MaxSteps: maxSteps}
+	if maxSteps >= 1000000 {
+		in.MaxDepth = 200000 // callers that budget for long runs also get deep (bounded) recursion
+	}
 	m.Res = ref.Run(m.Prog, in)
 	return m
 }
